@@ -224,8 +224,22 @@ def pLabelSeq : P String := do
   P.done
   pure (" ; ".intercalate ((cacheRun Gen.nearDev rows shapes).map showNats))
 
+/-- `hetcall h w v.. | L s.. o.. | H W | n x..` : HeterogeneousLinearModel(labels h×w)(signal H×W), row-major values -/
+def pHetCall : P String := do
+  let h ← P.nat; let w ← P.nat
+  let rows ← P.rep (P.rep P.nat w) h
+  bar
+  let L ← P.nat; let s ← P.rep P.rat L; let o ← P.rep P.rat L
+  bar
+  let H ← P.nat; let W ← P.nat
+  bar
+  let xs ← P.list P.rat
+  P.done
+  pure (showRats (hetCallResized Gen.nearDev rows s o H W xs))
+
 def dispatch : List String → Option String
   | "kern" :: rest => (pKern.run rest).map (·.1)
+  | "hetcall" :: rest => (pHetCall.run rest).map (·.1)
   | "labelseq" :: rest => (pLabelSeq.run rest).map (·.1)
   | "wrap" :: rest => (pWrap.run rest).map (·.1)
   | "lincomb" :: rest => (pLinComb.run rest).map (·.1)
